@@ -40,17 +40,10 @@ pub trait ChainStore: Send + Sync + Sized {
 
     /// Get block by block header hash
     fn get_block(&self, h: &packed::Byte32) -> Option<BlockView> {
-        let header = self.get_block_header(h)?;
-        if let Some(freezer) = self.freezer()
-            && header.number() > 0
-            && header.number() < freezer.number()
-        {
-            let raw_block = freezer.retrieve(header.number()).expect("block frozen")?;
-            let raw_block = packed::BlockReader::from_compatible_slice(&raw_block)
-                .expect("checked data")
-                .to_entity();
-            return Some(raw_block.into_view());
+        if let Some(block) = self.get_frozen_block(h) {
+            return Some(block);
         }
+        let header = self.get_block_header(h)?;
         let body = self.get_block_body(h);
         let uncles = self
             .get_block_uncles(h)
@@ -66,6 +59,26 @@ pub trait ChainStore: Send + Sync + Sized {
             BlockView::new_unchecked(header, uncles, body, proposals)
         };
         Some(block)
+    }
+
+    /// Get a block that has been moved into the freezer
+    ///
+    /// Only main-chain blocks are frozen: the item of the block's height is `h` itself for a
+    /// main-chain block, but another block for a side-chain block of a frozen height.
+    fn get_frozen_block(&self, h: &packed::Byte32) -> Option<BlockView> {
+        let freezer = self.freezer()?;
+        let number = self.get_block_header(h)?.number();
+        if number == 0 || number >= freezer.number() {
+            return None;
+        }
+        let raw_block = freezer.retrieve(number).expect("block frozen")?;
+        let raw_block = packed::BlockReader::from_compatible_slice(&raw_block)
+            .expect("checked data")
+            .to_entity();
+        if &raw_block.header().calc_header_hash() != h {
+            return None;
+        }
+        Some(raw_block.into_view())
     }
 
     /// Get header by block header hash
